@@ -18,10 +18,10 @@ package props
 // panic; no marker on the wire.
 
 import (
-	"sort"
 	"bytes"
 	"encoding/binary"
 	"fmt"
+	"sort"
 	"strings"
 	"testing"
 	"time"
